@@ -2,6 +2,7 @@ package export
 
 import (
 	"bytes"
+	"fmt"
 	"github.com/hneemann/parser2/funcGen"
 	"github.com/hneemann/parser2/value"
 )
@@ -73,6 +74,8 @@ func (j jsonExporter) String(str string) error {
 	j.b.WriteString("\"")
 	for _, r := range str {
 		switch r {
+		case '\\':
+			j.b.WriteString("\\\\")
 		case '"':
 			j.b.WriteString("\\\"")
 		case '\t':
@@ -82,7 +85,11 @@ func (j jsonExporter) String(str string) error {
 		case '\n':
 			j.b.WriteString("\\n")
 		default:
-			j.b.WriteRune(r)
+			if r < 0x20 {
+				fmt.Fprintf(j.b, "\\u%04x", r)
+			} else {
+				j.b.WriteRune(r)
+			}
 		}
 	}
 	j.b.WriteString("\"")
